@@ -1,7 +1,7 @@
 """C13 Symbols are classified by their declared type and share it by scope.
 
 spec: VarFactory.tla   Classify (tier decision) + histories Create/SetType/Clone/Rescope/Detach (Apply)
-      MC_VarFactory    TLC exhaustive over all histories of length <= 4 (quick) / 5 (thorough)
+      MC_VarFactory    TLC exhaustive over all histories of length <= 3 (quick) / 4 (thorough)
       Gen_VarFactory   GSpec: TLC -simulate behaviours;  CSpec: TLC-enumerated classification cross product
       Trace_VarFactory recorded histories of the real objects validated by TLC (code -> spec)
 Real objects: loki.expression.symbols.Variable (factory), TypedSymbol.type, clone, rescope, attached to real
@@ -258,7 +258,7 @@ def gen_cfg(ctx, name, spec, depth, maxsyms, full):
 def shrink(ctx, kind, events, clause_head):
     """Greedy delta-debugging on the event list, decided by the trace spec (batch per round)."""
     cur = events
-    for _ in range(6):
+    for _ in range(3):
         cands = [delete_event(cur, i) for i in range(len(cur) - 1)]
         cands = [c for c in cands if c]
         if not cands:
@@ -283,7 +283,7 @@ def run(ctx):
     # 1. design-level model checking of the specification (all histories up to MaxDepth)
     cfg = os.path.join(ctx.work, 'MC_VarFactory_run.cfg')
     with open(os.path.join(SPEC, 'MC_VarFactory.cfg')) as fh:
-        text = fh.read().replace('MaxDepth = 4', f'MaxDepth = {3 if quick else 5}')
+        text = fh.read().replace('MaxDepth = 4', f'MaxDepth = {3 if quick else 4}')
     with open(cfg, 'w') as fh:
         fh.write(text)
     ctx.mc('MC_VarFactory', cfg, timeout=300 if quick else 1500,
@@ -353,7 +353,7 @@ def run(ctx):
         key = norm_key(kind, clause, trace, l)
         events = strip(trace)[:l]
         if key not in shrunk:
-            if len(shrunk) < 12:
+            if len(shrunk) < (4 if ctx.quick else 12):
                 small = shrink(ctx, kind, events, clause.split(':')[0])
                 st = record(kind, small)
                 v = ctx.validate('Trace_VarFactory', 'Trace_VarFactory', [{'kind': kind, 'events': st}])
@@ -392,3 +392,31 @@ def run(ctx):
         'member symbols (d%x) appear only in the classification cases, not in type-update histories',
         'all histories come from TLC (Gen_VarFactory); the harness contains no reference model',
     ]
+
+
+def selftest(ctx):
+    """Binding demonstration: corrupt single recorded fields; TLC must reject with the matching clause."""
+    events = [{'op': 'create', 'k': 0, 'n': 'x', 's': 1, 't': 'int', 'dims': False, 'pc': 'none'},
+              {'op': 'settype', 'k': 0, 'n': 'x', 's': 1, 't': 'real[]', 'dims': False, 'pc': 'none'},
+              {'op': 'detach', 'k': 1, 'n': 'x', 's': 0, 't': 'keep', 'dims': False, 'pc': 'none'}]
+    failures = []
+
+    def corrupt(what):
+        t = record('assoc', events)
+        if what == 'class':
+            t[0]['obs']['syms'][0][0] = 'Array'
+        elif what == 'attached-type':
+            t[1]['obs']['syms'][0][1] = 'int'
+        elif what == 'detached-type':
+            t[2]['obs']['syms'][1][1] = 'int'
+        elif what == 'table':
+            t[1]['obs']['tab'][1][0] = 'real[]'
+        return t
+    names = ['ok', 'class', 'attached-type', 'detached-type', 'table']
+    v = ctx.validate('Trace_VarFactory', 'Trace_VarFactory', [{'kind': 'assoc', 'events': corrupt(w)} for w in names])
+    for i, w in enumerate(names):
+        print(f'selftest {w}: verdict {v[i]}')
+        if (w == 'ok') != bool(v[i][0]) or (w != 'ok' and not v[i][1].startswith(w)):
+            failures.append(w)
+    print('SELFTEST', 'FAILED ' + str(failures) if failures else 'OK')
+    return 2 if failures else 0
